@@ -452,6 +452,22 @@ fn disasm_inputs() -> Vec<Vec<u8>> {
         let ll = a.new_pair(l, n).unwrap();
         out.push(clvmr::serde::node_to_bytes(&a, ll).unwrap());
     }
+    // structure: every tree with at most 5 leaves over {nil, 1, "abc", 0x00} (proper and improper lists, nil elements before atom tails,
+    // lists inside tails, nested empty lists); seed C09-e dropped an atom tail that follows a nil element
+    fn trees(a: &mut clvmr::Allocator, leaves: usize, kinds: &[clvmr::NodePtr], memo: &mut Vec<Vec<clvmr::NodePtr>>) {
+        while memo.len() <= leaves { memo.push(vec![]); }
+        if !memo[leaves].is_empty() { return; }
+        if leaves == 1 { memo[1] = kinds.to_vec(); return; }
+        let mut acc = vec![];
+        for l in 1..leaves { trees(a, l, kinds, memo); trees(a, leaves - l, kinds, memo); let (ls, rs) = (memo[l].clone(), memo[leaves - l].clone()); for x in ls.iter() { for y in rs.iter() { if let Ok(p) = a.new_pair(*x, *y) { acc.push(p); } } } }
+        memo[leaves] = acc;
+    }
+    {
+        let mut a = clvmr::Allocator::new();
+        let kinds = vec![a.nil(), a.new_atom(&[1]).unwrap(), a.new_atom(b"abc").unwrap(), a.new_atom(&[0]).unwrap()];
+        let mut memo: Vec<Vec<clvmr::NodePtr>> = vec![vec![]];
+        for k in 2..=5usize { trees(&mut a, k, &kinds, &mut memo); for n in memo[k].clone() { if let Ok(b) = clvmr::serde::node_to_bytes(&a, n) { out.push(b); } } }
+    }
     out
 }
 
@@ -1598,6 +1614,13 @@ pub fn search(name: &str, seed: u64) -> Value {
                 // a capture whose name is spelled again inside its own pattern means the whole captured value
                 ("(mod (X Y) (defun F (@ A (A B)) (c B A)) (F X Y))", "(100 (200 300))", "((200 300) 100 (200 300))"),
                 ("(mod (P (@ Q (R Q))) (list P Q R))", "(1 (2 3))", "(1 (2 3) 2)"),
+                // a capture below another capture in an inline function's parameters (finding F30: it was bound to the outer capture's value)
+                ("(mod (X) (defun-inline F ((A (@ inner (B C)))) (list A inner B C)) (F X))", "((101 (102 103)))", "(101 (102 103) 102 103)"),
+                ("(mod (X) (defun-inline F ((@ whole (A (@ in2 (B (@ in3 (C D))))))) (list whole A in2 B in3 C D)) (F X))", "((101 (102 (103 104))))", "((101 (102 (103 104))) 101 (102 (103 104)) 102 (103 104) 103 104)"),
+                ("(mod (X Y) (defun-inline F (P (Q (@ Z (R S)))) (list P Q Z R S)) (F X Y))", "(5 (7 (8 9)))", "(5 7 (8 9) 8 9)"),
+                // a destructured inline argument more than 32 steps deep (seed C03-d narrowed the path arithmetic to u32)
+                ("(mod (X) (defun-inline F ((P0 P1 P2 P3 P4 P5 P6 P7 P8 P9 P10 P11 P12 P13 P14 P15 P16 P17 P18 P19 P20 P21 P22 P23 P24 P25 P26 P27 P28 P29 P30 P31 P32 P33 P34 P35)) (list P0 P31 P32 P35)) (F X))", "((1000 1001 1002 1003 1004 1005 1006 1007 1008 1009 1010 1011 1012 1013 1014 1015 1016 1017 1018 1019 1020 1021 1022 1023 1024 1025 1026 1027 1028 1029 1030 1031 1032 1033 1034 1035))", "(1000 1031 1032 1035)"),
+                ("(mod (X) (defun F ((P0 P1 P2 P3 P4 P5 P6 P7 P8 P9 P10 P11 P12 P13 P14 P15 P16 P17 P18 P19 P20 P21 P22 P23 P24 P25 P26 P27 P28 P29 P30 P31 P32 P33 P34 P35)) (list P0 P31 P32 P35)) (F X))", "((1000 1001 1002 1003 1004 1005 1006 1007 1008 1009 1010 1011 1012 1013 1014 1015 1016 1017 1018 1019 1020 1021 1022 1023 1024 1025 1026 1027 1028 1029 1030 1031 1032 1033 1034 1035))", "(1000 1031 1032 1035)"),
             ];
             for (b, at, ex) in cases.iter() {
                 if let Some(mut v) = chk_meaning(b, None, at, ex) { v["input"] = json!({"program": b, "dialect": "classic", "args": at}); return v; }
@@ -1605,7 +1628,7 @@ pub fn search(name: &str, seed: u64) -> Value {
                 let r = catch_unwind(move || { let got = compile_and_run(&b2, true, &a2); let mut a = clvmr::Allocator::new(); let want = chialisp::classic::clvm_tools::binutils::assemble(&mut a, &e2).ok().and_then(|n| clvmr::serde::node_to_bytes(&a, n).ok()); (got, want) });
                 match r { Ok((Ok(g), w)) if g == w => {}, Ok((g, w)) => return hit(json!({"program": b, "dialect": "classic -O", "args": at}), format!("{} ({:?})", ex, w), format!("{:?}", g), "classic compile with optimisation + clvmr run"), Err(_) => return hit(json!({"program": b}), "no panic".into(), "panic".into(), "classic compile panicked") }
             }
-            nf("13 programs (incl. nested destructuring in inline parameters, a capture name repeated inside its pattern) compiled by the classic compiler (plain and optimised) return the hand-computed values (which the cl21 build also returns, see source_meaning)")
+            nf("18 programs (incl. nested destructuring in inline parameters, captures below captures, a 36-element destructured argument, a capture name repeated inside its pattern) compiled by the classic compiler (plain and optimised) return the hand-computed values (which the cl21 build also returns, see source_meaning)")
         }
         "source_meaning" | "create_let_env_expression" | "cons_bodyform" | "create_name_lookup_" | "finalize_env_" => {
             for (b, at, ex) in meaning_cases() { for d in [Some("*standard-cl-21*"), Some("*standard-cl-23*")] {
